@@ -299,4 +299,19 @@ def run(F, rep):
     from engines import rule_visit_all
     rule_visit_all(F, rep, 'C08.Y1', lambda g: g.file.endswith(('/validator.cpp', '/units.cpp')), 20, 'validator.cpp and units.cpp (units of connected variables)')
 
+    # ------------------------------------------------------------------ H / E: no stale factors, tolerant comparison of reduced exponents
+    if not getattr(rep, 'nested', False):
+        import c12
+        c12.rule_h1(F, rep, 'C08.H1', [st for st in c12.STATE if st[0] == 'Analyser::AnalyserImpl'])
+    rep.rule('C08.E1', 'areEqual(double, double), with which Units::compatible compares reduced base-unit exponents, compares the two values through convertToString (15 significant digits), not with ==: exponents such as 0.1 + 0.2 and 0.3 '
+                       'differ in the last bit, and an exact comparison makes the verdict depend on the intermediate units the definition goes through')
+    ae = [g for g in F.funcs.values() if g.name == 'areEqual' and len(g.params) == 2 and all(p_['t'] == 'double' for p_ in g.params)]
+    if len(ae) != 1:
+        raise AnalysisBroken('areEqual(double, double) vanished')
+    rets_ = [r for r in ae[0].walk() if r.get('k') == 'Return' and r.get('c')]
+    conv = [c for r in rets_ for c in walk(r) if c.get('k') == 'Call' and c.get('fn') == 'convertToString']
+    covered = {x.get('d') for c in conv for x in walk(c) if x.get('k') == 'Ref' and x.get('dk') == 'parm'}
+    rep.check(len(rets_) == 1 and len(conv) == 2 and covered == {p_['d'] for p_ in ae[0].params}, 'C08.E1', 'areEqual|through-text', ae[0].where(), 'areEqual returns `%s`: the operands are not both rounded through convertToString' % (render(rets_[0]['c'][0])[:70] if rets_ else '?'),
+              'both operands compared as 15-digit text')
+
 
